@@ -391,6 +391,28 @@ pub fn check_shared_parts(s: &str) -> Result<bool, String> {
         if format!("$share/{}/{}", name, filt) != s || name.is_empty() || name.contains('/') {
             return Err(format!("MQV-INTERNAL bad split of {:?}", s));
         }
+        // a sibling subscription: the same filter under another share name of the same length - a different filter in
+        // every respect, through every operator
+        {
+            let mut sib_name: String = name.chars().take(name.chars().count() - 1).collect();
+            let last = name.chars().last().unwrap_or('g');
+            let repl = match last.len_utf8() {
+                1 => if last == 'z' { 'y' } else { 'z' },
+                2 => if last == '\u{e9}' { '\u{e8}' } else { '\u{e9}' },
+                3 => if last == '\u{4f60}' { '\u{597d}' } else { '\u{4f60}' },
+                _ => if last == '\u{1F600}' { '\u{1F601}' } else { '\u{1F600}' },
+            };
+            sib_name.push(repl);
+            let sib = format!("$share/{}/{}", sib_name, filt);
+            if specpred::filter_valid(&sib) && sib.len() == s.len() {
+                let g = TopicFilter::try_from(sib.clone()).map_err(|e| format!("valid filter {:?} refused: {:?}", sib, e))?;
+                operators_follow_cmp(&f, s, &g, &sib, "two share names of the same length in front of the same filter")?;
+                operators_follow_cmp(&g, &sib, &f, s, "two share names of the same length in front of the same filter")?;
+                if f == g || !(f != g) || g.eq(&f) || !g.ne(&f) || f.cmp(&g) == std::cmp::Ordering::Equal {
+                    return Err(format!("{:?} and {:?} differ, but ==, !=, eq, ne or cmp say otherwise ({}, {}, {}, {}, {:?})", s, sib, f == g, f != g, g.eq(&f), g.ne(&f), f.cmp(&g)));
+                }
+            }
+        }
         // decoded as one entry of a list whose neighbours are shared filters with a share name that is a proper prefix /
         // an extension of this one, the same name, and a plain filter: every decoded entry reports its own split
         // (whatever a decoder may reuse from the entry before)
